@@ -80,6 +80,8 @@ def verify_function(tu, fn_name, contracts, int_mode='bv', num_mode='real', pref
     exe = Exe(tu, int_mode, num_mode, contracts, prefix)
     exe.check_arith = check_arith
     exe.sem.strict = bool(con.get('strict_unsigned'))
+    if con.get('prune_ms') is not None:
+        exe.prune_ms = con['prune_ms']      # solver-based pruning of infeasible branches during VC generation
     exe.drop_dead_ptr_locals = bool(con.get('drop_dead_ptr_locals'))
     exe.ghost_tags = bool(con.get('ghost_tags'))
     import vlib.flow as _flow
@@ -106,6 +108,16 @@ def verify_function(tu, fn_name, contracts, int_mode='bv', num_mode='real', pref
             exe.copy_aggregate(p, a, p.ct, st)
         else:
             st.store(exe._normalize(p), a)
+    # logical (ghost) parameters: fresh constants the contract may mention (ghost arrays, sizes that are not C parameters)
+    gh = {}
+    for gname, gsort in (con.get('ghost_params') or {}).items():
+        if gsort == 'array':
+            gh[gname] = z3.Array(gname, exe.sem.idx_sort(), exe.sem.idx_sort())
+        elif gsort == 'int':
+            gh[gname] = z3.Const(gname, exe.sem.idx_sort())
+        else:
+            raise FrontEndError('ghost parameter sort ' + str(gsort))
+    exe.__dict__.setdefault('ghosts', {})[fn_name] = gh
     if setup:
         setup(exe, st, res)
     exe.pre_states = {fn_name: st}
